@@ -16,6 +16,11 @@
 //!   stream `energy`: the batch stream on an application with the energy_model traversal (bundled
 //!                    Toyota_Camry smartcore model, three cost features): total_cost and the
 //!                    state_model indices bit for bit; corpus witness: one query 300 times.
+//!   stream `ecache`: the energy stream with float_cache_policy ON in the applications under test,
+//!                    on inputs where no two distinct (speed, grade) lookups share a cache key
+//!                    (integer speed table in the key's unit, no grade table, key precision 0):
+//!                    there the cache is transparent, so every response must equal, bit for bit,
+//!                    what an application WITHOUT cache answers for the query alone (deciding).
 //!   expansion cases (in `batch` / `energy`): one grid query alone vs "every expanded query
 //!                    answered on its own" -- differs exactly in K_child_error_drops_siblings.
 //!   stream `cache` : probe of the prediction cache (FloatCachePolicy behind
@@ -163,17 +168,30 @@ struct Ctx {
     pools: HashMap<usize, rayon::ThreadPool>,
     sink_dir: PathBuf,
     energy: bool, // stream `energy`: every application uses the energy_model traversal (3 cost features)
+    /// stream `ecache`: the energy applications under test have the prediction cache on, with a
+    /// key (speed rounded to 1 km/h, grade) that no two distinct inputs of this network share:
+    /// integer speed table, no grade table.  On such inputs the cache is transparent
+    /// (c06_cache_transparent_if_stable), so the reference (each query alone, and the component
+    /// tables of the model) is taken from an application WITHOUT cache.
+    cache: bool,
 }
+/// marker for the reference application of a variant (parallelism 1, never a cache)
+const REF: usize = usize::MAX;
 impl Ctx {
     fn new(out: &Path, net_seed: u64) -> Ctx {
         let net = write_network(&out.join("net"), net_seed);
         let sink_dir = out.join("sink");
         std::fs::create_dir_all(&sink_dir).unwrap();
-        Ctx { net, apps: HashMap::new(), pools: HashMap::new(), sink_dir, energy: false }
+        Ctx { net, apps: HashMap::new(), pools: HashMap::new(), sink_dir, energy: false, cache: false }
     }
     fn app(&mut self, p_cfg: usize, lb: bool, iter: bool) -> &CompassApp {
         if !self.apps.contains_key(&(p_cfg, lb, iter)) {
-            let a = if self.energy { build_energy_app(&self.net, p_cfg, lb, iter) } else { build_app(&self.net, p_cfg, lb, iter) };
+            let a = if self.energy {
+                let cached = self.cache && p_cfg != REF;
+                build_energy_app(&self.net, if p_cfg == REF { 1 } else { p_cfg }, lb, iter, cached)
+            } else {
+                build_app(&self.net, if p_cfg == REF { 1 } else { p_cfg }, lb, iter)
+            };
             self.apps.insert((p_cfg, lb, iter), a);
         }
         &self.apps[&(p_cfg, lb, iter)]
@@ -701,7 +719,7 @@ fn add_query_to_tables(app: &CompassApp, q: &Value, t: &mut Tables, el: &mut Ele
 
 fn build_tables(ctx: &mut Ctx, queries: &[Value], lb: bool, iter: bool, intern: &mut Intern, el: &mut Elems) -> Tables {
     let mut t = Tables::default();
-    let app1 = ctx.app(1, lb, iter);
+    let app1 = ctx.app(REF, lb, iter);
     let cfg1 = run_cfg(Some(1), false, None);
     for (i, q) in queries.iter().enumerate() {
         let k = add_query_to_tables(app1, q, &mut t, el, intern);
@@ -1033,9 +1051,9 @@ fn corpus_dir(a: &Args) -> Option<PathBuf> {
     None
 }
 
-fn stream_batch(a: &Args, energy: bool) {
+fn stream_batch(a: &Args, energy: bool, cache: bool) {
     let header = "From Coq Require Import ZArith List String Floats.\nFrom RC Require Import Base.Show Base.Res Model.Batch Model.BatchRun.\nImport ListNotations.\nOpen Scope Z_scope.";
-    let mut st = Stream::new(&a.out, if energy { "energy" } else { "batch" }, header, a.shards);
+    let mut st = Stream::new(&a.out, if cache { "ecache" } else if energy { "energy" } else { "batch" }, header, a.shards);
     if let Some(p) = &a.replay {
         st.full = true;
         let v: Value = serde_json::from_str(&std::fs::read_to_string(p).unwrap()).unwrap();
@@ -1043,6 +1061,8 @@ fn stream_batch(a: &Args, energy: bool) {
         let net_seed = c["net_seed"].as_u64().unwrap_or(1);
         let mut ctx = Ctx::new(&a.out, net_seed);
         ctx.energy = energy;
+    ctx.cache = cache;
+        ctx.cache = cache;
         if c["kind"] == json!("repeat") {
             repeat_case(&mut st, &mut ctx, net_seed, &c["query"], c["runs"].as_u64().unwrap_or(300) as usize, "replay");
             st.finish();
@@ -1075,7 +1095,8 @@ fn stream_batch(a: &Args, energy: bool) {
     let net_seed = a.seed;
     let mut ctx = Ctx::new(&a.out, net_seed);
     ctx.energy = energy;
-    let mut rng = Rng::new(a.seed ^ 0xBA7C ^ if energy { 0xE0000 } else { 0 });
+    ctx.cache = cache;
+    let mut rng = Rng::new(a.seed ^ 0xBA7C ^ if energy { 0xE0000 } else { 0 } ^ if cache { 0xC0000 } else { 0 });
     // ---- corpus first: witnesses of known findings (expansion cases)
     if let Some(dir) = corpus_dir(a) {
         let mut files: Vec<PathBuf> = std::fs::read_dir(&dir).map(|d| d.filter_map(|e| e.ok().map(|e| e.path())).collect()).unwrap_or_default();
@@ -1210,20 +1231,20 @@ fn stream_batch(a: &Args, energy: bool) {
 
 // ---------------------------------------------------------------- stream cache (probe, never an alarm)
 
-fn build_energy_app(net: &Net, p_cfg: usize, lb: bool, iter: bool) -> CompassApp {
+fn build_energy_app(net: &Net, p_cfg: usize, lb: bool, iter: bool, cached: bool) -> CompassApp {
     let lbp = if lb {
         ",\n  { type = \"load_balancer\", weight_heuristic = { type = \"custom\", custom_weight_type = { type = \"numeric\" } } }"
     } else {
         ""
     };
-    let mut toml = energy_toml(net, None)
+    let mut toml = energy_toml(net, if cached { Some((0, 0)) } else { None })
         .replace("parallelism = 1\n", &format!("parallelism = {}\n", p_cfg))
         .replace("input_plugins = []", &format!("input_plugins = [\n  {{ type = \"grid_search\" }}{}\n]", lbp))
         .replace("distance = 0\ntime = 0\nenergy_liquid = 1", "distance = 1\ntime = 1\nenergy_liquid = 1");
     if iter {
         toml = toml.replace("[access]", &format!("[termination]\ntype = \"iterations\"\nlimit = {}\n[access]", ITER_LIMIT));
     }
-    let conf = net.dir.join(format!("energy_{}_{}_{}.toml", p_cfg, lb, iter));
+    let conf = net.dir.join(format!("energy_{}_{}_{}_{}.toml", p_cfg, lb, iter, cached));
     std::fs::write(&conf, &toml).unwrap();
     CompassApp::try_from_config_toml_string(toml, conf.to_str().unwrap().to_string(), &CompassAppBuilder::default())
         .unwrap_or_else(|e| panic!("energy app build failed: {}", e))
@@ -1369,8 +1390,9 @@ fn main() {
     let a = parse_args();
     match a.stream.as_str() {
         "lb" => stream_lb(&a),
-        "batch" => stream_batch(&a, false),
-        "energy" => stream_batch(&a, true),
+        "batch" => stream_batch(&a, false, false),
+        "energy" => stream_batch(&a, true, false),
+        "ecache" => stream_batch(&a, true, true),
         "cache" => stream_cache(&a),
         other => panic!("unknown stream {}", other),
     }
